@@ -1,11 +1,14 @@
 package props
 
 import (
+	"encoding/json"
 	"fmt"
 
 	"github.com/corestario/kyber/sign/tbls"
 
 	"github.com/lidofinance/dc4bc/client/api/dto"
+	"github.com/lidofinance/dc4bc/client/types"
+	"github.com/lidofinance/dc4bc/fsm/types/requests"
 
 	"verifharness/oracle"
 	"verifharness/sched"
@@ -140,6 +143,61 @@ func runC01Case(c *Ctx, n, t int, rep uint64) {
 		if rep == 0 && b == 0 {
 			c.Sample(map[string]interface{}{"n": n, "t": t, "signers": spec.Signers, "proposer": spec.Proposer, "kind": kind, "messages": len(msgs), "board_len": ce.W.Board.Len()})
 		}
+	}
+	// one more batch answered by exactly t participants, one of whose answers was damaged on its way
+	// from the machine (an entry missing, repeated, or carrying another message's id): whatever the
+	// nodes reconstruct, broadcast or store for it is judged like everything else
+	{
+		kinds := []string{"entry-missing", "entry-repeated", "entry-under-other-id", "entries-swapped"}
+		kind := kinds[r.Intn(len(kinds))]
+		set := subsets[r.Intn(len(subsets))]
+		victim := set[r.Intn(len(set))]
+		damaged := 0
+		ce.W.ResultHook = func(nd *world.Node, req, res *types.Operation) *types.Operation {
+			if nd.Idx != victim || string(req.Type) != OpSigning || len(res.ResultMsgs) != 1 {
+				return res
+			}
+			var pr requests.SigningProposalBatchPartialSignRequests
+			if json.Unmarshal(res.ResultMsgs[0].Data, &pr) != nil || len(pr.PartialSigns) < 2 {
+				return res
+			}
+			ps := pr.PartialSigns
+			switch kind {
+			case "entry-missing":
+				pr.PartialSigns = ps[1:]
+			case "entry-repeated":
+				pr.PartialSigns = append(ps[1:], ps[1])
+			case "entry-under-other-id":
+				ps[0].MessageID = ps[1].MessageID
+			case "entries-swapped":
+				ps[0].Sign, ps[1].Sign = ps[1].Sign, ps[0].Sign
+			}
+			res.ResultMsgs[0].Data, _ = json.Marshal(pr)
+			damaged++
+			return res
+		}
+		data := map[string][]byte{}
+		for m := 0; m < 3; m++ {
+			data[fmt.Sprintf("damaged-%d", m)] = randPayload(r)
+		}
+		prop, err := ce.RunBatch(BatchSpec{Proposer: r.Intn(n), Signers: set, NoLate: true, Data: data}, world.RandomPolicy)
+		ce.W.ResultHook = nil
+		if prop != nil {
+			if bid, msgs, e := ExpandProposal(prop.Data); e == nil {
+				expected[bid] = map[string]ExpectedMsg{}
+				for _, m := range msgs {
+					expected[bid][m.ID] = m
+				}
+				complete[bid] = false
+				c.Eval(1)
+				c.Add("batches_with_a_damaged_answer", damaged)
+				c.Distinct(fmt.Sprintf("n%d t%d damaged-answer %s", n, t, kind))
+			}
+		}
+		if err != nil {
+			c.Note("damaged-answer batch (%s) n=%d t=%d: %v", kind, n, t, err)
+		}
+		wit["damaged_answer"] = map[string]interface{}{"kind": kind, "signers": set, "damaged_signer": victim}
 	}
 	ce.JudgeSignatures(c, j, expected, complete, wit)
 	c.Add("signatures_verified", j.Verified)
